@@ -1,6 +1,7 @@
 import WorkflowModel.Lemmas.Local
 import WorkflowModel.Props.C03Table
 import WorkflowModel.Props.C02Engine
+import WorkflowModel.Model.HistCheck
 /-! # The write history of every run: what a legal history is, and when a write extends one
 
 `HistInv cfg s`: every run of `s` has a non-empty history (newest first) that starts with a legal first write
@@ -319,5 +320,79 @@ theorem chain_head_after_rdd {cfg : Cfg} : ∀ (l : List Rec) (h : Rec) (t : Lis
     · exact Or.inl h7
     · have ih := chain_head_after_rdd (a :: t') a t' rfl hc.2 ⟨w', by simpa using hw', h7⟩
       exact hc.1.after_rdd ih
+
+end WorkflowModel.Engine
+
+/-! ## the executable mirror `histOK` decides the invariant -/
+namespace WorkflowModel.Engine
+open WorkflowModel RS
+
+theorem recOKb_iff (cfg : Cfg) (w : Rec) : recOKb cfg w = true ↔ RecOK cfg w := by
+  unfold recOKb
+  constructor
+  · intro h
+    simp only [Bool.and_eq_true, decide_eq_true_eq, Bool.or_eq_true, bne_iff_ne, ne_eq, beq_iff_eq] at h
+    obtain ⟨⟨⟨h1, h2⟩, h3⟩, h4⟩ := h
+    exact ⟨h1, h2, fun h5 => by rcases h3 with h3 | h3; exact absurd h5 h3; exact h3, h4⟩
+  · intro h
+    simp only [Bool.and_eq_true, decide_eq_true_eq, Bool.or_eq_true, bne_iff_ne, ne_eq, beq_iff_eq]
+    refine ⟨⟨⟨h.lo, h.hi⟩, ?_⟩, h.descr⟩
+    by_cases h5 : w.runState = 5
+    · exact Or.inr (h.completedTerminal h5)
+    · exact Or.inl h5
+
+theorem initOKb_iff (cfg : Cfg) (w : Rec) : initOKb cfg w = true ↔ InitOK cfg w := by
+  unfold initOKb
+  simp only [Bool.and_eq_true, beq_iff_eq]
+  exact ⟨fun ⟨⟨a, b⟩, c⟩ => ⟨a, b, c⟩, fun h => ⟨⟨h.version, h.runState⟩, h.valid⟩⟩
+
+theorem edgeb_iff (cfg : Cfg) (a b : Rec) : edgeb cfg a b = true ↔ Edge cfg a b := by
+  unfold edgeb
+  simp only [Bool.and_eq_true, Bool.or_eq_true, beq_iff_eq, List.contains_iff_mem]
+  constructor
+  · rintro ⟨⟨⟨⟨h1, h2⟩, h3⟩, h4⟩, hk⟩
+    refine ⟨h1, h2, h3, h4, ?_⟩
+    rcases hk with (⟨⟨k1, k2⟩, k3⟩ | ⟨⟨k1, k2⟩, k3⟩) | ⟨⟨k1, k2⟩, k3⟩
+    · exact Or.inl ⟨k1, k2, k3⟩
+    · exact Or.inr (Or.inl ⟨k1, k2, by rw [k3]⟩)
+    · exact Or.inr (Or.inr ⟨k1, k2, k3⟩)
+  · intro h
+    refine ⟨⟨⟨⟨h.version, h.runId⟩, h.fid⟩, h.createdAt⟩, ?_⟩
+    rcases h.kind with ⟨k1, k2, k3⟩ | ⟨k1, k2, k3⟩ | ⟨k1, k2, k3⟩
+    · exact Or.inl (Or.inl ⟨⟨k1, k2⟩, k3⟩)
+    · exact Or.inl (Or.inr ⟨⟨k1, k2⟩, by rw [k3]⟩)
+    · exact Or.inr ⟨⟨k1, k2⟩, k3⟩
+
+theorem chainb_iff (cfg : Cfg) : ∀ l : List Rec, chainb cfg l = true ↔ Chain cfg l
+  | [] => by simp [chainb, Chain]
+  | [w] => by simp [chainb, Chain, initOKb_iff]
+  | b :: a :: t => by
+    simp only [chainb, Chain, Bool.and_eq_true, edgeb_iff]
+    rw [chainb_iff cfg (a :: t)]
+
+theorem runOKb_iff (cfg : Cfg) (i : Nat) (x : RunS) : runOKb cfg i x = true ↔ RunOK cfg i x := by
+  unfold runOKb
+  simp only [Bool.and_eq_true, chainb_iff, List.all_eq_true, beq_iff_eq, recOKb_iff]
+  exact ⟨fun ⟨c, h⟩ => ⟨c, fun w hw => ⟨(h w hw).1.1, (h w hw).1.2⟩, fun w hw => (h w hw).2⟩,
+    fun h => ⟨h.chain, fun w hw => ⟨h.ids w hw, h.recs w hw⟩⟩⟩
+
+/-- the executable check is exactly the invariant -/
+theorem histOK_iff (cfg : Cfg) (s : Sys) : histOK cfg s = true ↔ HistInv cfg s := by
+  unfold histOK HistInv
+  simp only [List.all_eq_true, runOKb_iff]
+  constructor
+  · intro h i x hx
+    have hlt := (List.getElem?_eq_some_iff.mp hx).1
+    have hget : s.runs[i] = x := by
+      have := List.getElem?_eq_getElem hlt
+      rw [this] at hx; exact Option.some.inj hx
+    have hmem : (x, i) ∈ s.runs.zipIdx := by
+      rw [List.mem_zipIdx_iff_getElem?]
+      exact hx
+    exact h (x, i) hmem
+  · intro h p hp
+    obtain ⟨x, i⟩ := p
+    rw [List.mem_zipIdx_iff_getElem?] at hp
+    exact h i x hp
 
 end WorkflowModel.Engine
